@@ -158,6 +158,30 @@ func insert(s []ast.Vertex, k int, vs ...ast.Vertex) []ast.Vertex {
 	return s2
 }
 
+// heredocLabel: the label of a heredoc / nowdoc opener (`<<<LABEL`, `<<< "LABEL"`, `b<<<'LABEL'`); EOT without one
+func heredocLabel(open *token.Token) []byte {
+	if open == nil {
+		return []byte("EOT")
+	}
+	v := open.Value
+	if i := bytes.Index(v, []byte("<<<")); i >= 0 {
+		v = v[i+3:]
+	}
+	v = bytes.Trim(v, " \t\r\n\"'")
+	if len(v) == 0 {
+		return []byte("EOT")
+	}
+	return v
+}
+
+func heredocOpener(label []byte, nowdoc bool) []byte {
+	quote := ""
+	if nowdoc {
+		quote = "'"
+	}
+	return []byte("<<<" + quote + string(label) + quote + "\n")
+}
+
 func (f *formatter) Root(n *ast.Root) {
 	f.addFreeFloating(token.T_WHITESPACE, []byte("\n"))
 	f.addIndent()
@@ -2022,17 +2046,19 @@ func (f *formatter) ScalarEncapsedStringBrackets(n *ast.ScalarEncapsedStringBrac
 }
 
 func (f *formatter) ScalarHeredoc(n *ast.ScalarHeredoc) {
-	open := []byte("<<<EOT\n")
+	// the source's own label cannot occur at the start of a body line; another one (EOT) might
+	label := heredocLabel(n.OpenHeredocTkn)
+	open := heredocOpener(label, false)
 	if n.OpenHeredocTkn != nil && bytes.IndexByte(n.OpenHeredocTkn.Value, '\'') >= 0 {
 		// a nowdoc stays a nowdoc: its body is not interpolated
-		open = []byte("<<<'EOT'\n")
+		open = heredocOpener(label, true)
 	}
 
 	n.OpenHeredocTkn = f.newToken(token.T_START_HEREDOC, open)
 	for _, p := range n.Parts {
 		p.Accept(f)
 	}
-	n.CloseHeredocTkn = f.newToken(token.T_END_HEREDOC, []byte("EOT"))
+	n.CloseHeredocTkn = f.newToken(token.T_END_HEREDOC, label)
 }
 
 func (f *formatter) ScalarLnumber(n *ast.ScalarLnumber) {
